@@ -33,6 +33,12 @@ ASSUMPTIONS = ['instance isolation rests on the translator refusing any write to
 MODS = {'6502': 'py65.devices.mpu6502', '65C02': 'py65.devices.mpu65c02', '65Org16': 'py65.devices.mpu65org16'}
 
 
+_C8 = dict(byteMask=0xff, addrMask=0xffff, addrHighMask=0xff00, spBase=0x100, BYTE_WIDTH=8, ADDR_WIDTH=16, sp=0xff)
+EXPECTED_CFG = {'6502': _C8, '65C02': _C8,
+                '65Org16': dict(byteMask=0xffff, addrMask=0xffffffff, addrHighMask=0xffff0000, spBase=0x10000,
+                                BYTE_WIDTH=16, ADDR_WIDTH=32, sp=0xffff)}
+
+
 def spec_tables():
     src = open(os.path.join(common.LEAN, 'Py65', 'Spec', 'Isa.lean')).read()
 
@@ -52,9 +58,15 @@ DUMP = r'''
 import importlib, json, sys
 order = sys.argv[1].split(',')
 mods = {'6502': 'py65.devices.mpu6502', '65C02': 'py65.devices.mpu65c02', '65Org16': 'py65.devices.mpu65org16'}
+def cfg(i):
+    return dict(byteMask=i.byteMask, addrMask=i.addrMask, addrHighMask=i.addrHighMask, spBase=i.spBase,
+                BYTE_WIDTH=i.BYTE_WIDTH, ADDR_WIDTH=i.ADDR_WIDTH, sp=i.sp, p=i.p, pc=i.pc)
+inst = {}
 for d in order:
-    m = importlib.import_module(mods[d]); m.MPU()
-out = {}
+    m = importlib.import_module(mods[d]); inst['first:' + d] = cfg(m.MPU())
+for d in mods:
+    m = importlib.import_module(mods[d]); inst['then:' + d] = cfg(m.MPU())
+out = {'instances': inst}
 for d, name in mods.items():
     m = importlib.import_module(name)
     c = m.MPU
@@ -110,9 +122,18 @@ def explore(ctx):
             ctx.findings.append(dict(key=dict(aspect='config', order=list(order)),
                                      what='importing %s raises: %s' % (order, err), replay=dict(order=list(order))))
             continue
+        for key, got_cfg in got.get('instances', {}).items():
+            dev = key.split(':')[1]
+            exp_cfg = EXPECTED_CFG[dev]
+            bad = {k: (got_cfg[k], v) for k, v in exp_cfg.items() if got_cfg[k] != v}
+            if bad:
+                ctx.findings.append(dict(
+                    key=dict(aspect='config-instance', order=list(order), dev=dev),
+                    what='after creating %s in this order, a new %s instance has %s (got, documented)' % (list(order), dev, bad),
+                    replay=dict(order=list(order), dev=dev, bad={k: list(v) for k, v in bad.items()})))
         for dev in DEVNAMES:
             for tb in ('instruct', 'cycletime', 'extracycles', 'disassemble'):
-                if got[dev][tb] != base[dev][tb]:
+                if base and got[dev][tb] != base[dev][tb]:
                     idx = [i for i in range(256) if got[dev][tb][i] != base[dev][tb][i]][:5]
                     ctx.findings.append(dict(
                         key=dict(aspect='config', order=list(order), dev=dev, table=tb),
@@ -128,7 +149,10 @@ def explore(ctx):
                 n_eval += 1
                 seed = rng.randrange(1 << 30)
                 r = random.Random(seed)
-                f = isolation_case(classes, d1, d2, r)
+                try:
+                    f = isolation_case(classes, d1, d2, r)
+                except Exception as ex:          # the devices themselves fail
+                    f = 'raised %s: %s' % (type(ex).__name__, ex)
                 distinct.add(('iso', d1, d2, seed % 997))
                 if f:
                     ctx.findings.append(dict(key=dict(aspect='isolation', dev=d1, other=d2),
